@@ -253,7 +253,8 @@ def peephole(chk, cases, res, d):
 def frames(chk, exe, cases, verd, d, tier):
     """mechanism grade: XFrames (the calling convention) is model-checked, shown to rest on its store discipline, and the
     runs of a seeded sample of the agreeing programs are validated against it"""
-    r = vlib.tlc("XFramesMC", cfg="XFramesMC.cfg", workers=8, heap="4g")
+    # (thorough: three procedures, two of them functions, a deeper memory: 10M states)
+    r = vlib.tlc("XFramesMC", cfg="XFramesMC.cfg" if tier == "quick" else "XFramesMC3.cfg", workers=8, heap="4g" if tier == "quick" else "12g", timeout=7200)
     chk.add("states", r.distinct); chk.add("transitions", r.states)
     if r.violation:
         chk.set("DRIFT_XFrames_own_invariants", r.out[-1500:])
